@@ -12,7 +12,7 @@
     about a number the peer writes into a 60-byte message. *)
 From Coq Require Import List ZArith NArith Bool Lia.
 From C33 Require Import C33.Model C33.ProofsBase C33.ProofsMain C33.ProofsStep C33.ProofsThm.
-From C33 Require Import C33.Streams C33.ProofsStreams C33.ProofsServe.
+From C33 Require Import C33.Streams C33.ProofsStreams C33.ProofsServe C33.Store C33.ProofsStore.
 Import ListNotations.
 Open Scope Z_scope.
 
@@ -278,3 +278,109 @@ Theorem C33_peer_handlers_example :
   /\ check_version_limit [54;46;56;46;57]%N [120;64;64;54;46;56;46;57]%N = Done false.
 Proof. vm_compute. repeat split. Qed.
 Print Assumptions C33_peer_handlers_example.
+
+(** p2pstore header requests (handleStreamGetHeaderOld needs no signature,
+    handleStreamGetHeader a signature under the requester's own key; neither
+    tests the range) in front of ProcGetHeadersMsg, and the same range sent by
+    the rpc module: for every int64 range the blockchain module answers with an
+    error or with 1..10000 headers - no panic, no allocation beyond
+    MaxHeaderCountPerTime pointers; the handlers answer, drop or (nil Message,
+    nil Headers, other oneof member: recovered by the stream wrapper) reset.
+    Holds since the count test also rejects a negative (= wrapped) End-Start
+    (finding 5, repaired: StartHeight = -2^40, EndHeight = 2^63-1 sized the
+    reply slice with 2^40 pointers: fatal out of memory) *)
+Theorem C33_header_request_total : forall tip cap,
+  int64 tip -> 10000 <= cap ->
+  (forall s e, int64 s -> int64 e ->
+     chain_headers tip cap s e = Done CErr
+     \/ exists hs, chain_headers tip cap s e = Done (CBlocks hs) /\ 1 <= Z.of_nat (length hs) <= 10000)
+  /\ (forall r, sreq_int64 r ->
+        match get_header_old (chain_headers tip cap) r with
+        | Done (RHeaders hs) => 1 <= Z.of_nat (length hs) <= 10000
+        | Dropped _ => True
+        | Panicked w => w = W_NILHREQ /\ (r = RdZero \/ r = RdMsg None)
+        | _ => False
+        end)
+  /\ (forall r, preq_typed r ->
+        match get_header (chain_headers tip cap) r with
+        | Done (RHeaders hs) => 1 <= Z.of_nat (length hs) <= 10000
+        | Done RError | Dropped _ => True
+        | Panicked w => w = W_NILHDRS \/ w = W_ASSERT
+        | _ => False
+        end).
+Proof.
+  intros tip cap Ht Hcap. split; [|split].
+  - intros s e Hs He. apply chain_headers_total; assumption.
+  - intros r Hr. apply get_header_old_spec; assumption.
+  - intros r Hr. apply get_header_spec; assumption.
+Qed.
+Print Assumptions C33_header_request_total.
+
+(** GetBlockSequences (rpc GetBlockSequences through the queue): an error or
+    1..1000 entries for every int64 range.  Holds since the count test also
+    rejects a wrapped End-Start (finding 6, repaired: Start = -65536, End =
+    2^63-1 was answered with 65536 nil entries and the whole table, Start =
+    -2^40 appended until memory ran out) *)
+Theorem C33_block_sequences_total : forall last cap s e,
+  int64 s -> int64 e -> int64 last -> 1000 <= cap ->
+  chain_seqs last cap s e = Done QErr
+  \/ exists a b, chain_seqs last cap s e = Done (QSeqs a b) /\ 0 <= a /\ 0 <= b /\ 1 <= a + b <= 1000.
+Proof. exact chain_seqs_total. Qed.
+Print Assumptions C33_block_sequences_total.
+
+(** all modelled p2pstore handlers (header old / new, chunk record, fetch chunk,
+    shard peers, full node) and the two direct ranges, on every node (chain
+    height, last sequence, chunk records, local store, routing table of any
+    size; memory for 10000 pointers and for one peerDistance record per peer of
+    the table plus a bucket) and for every request whose integer fields have
+    their Go types: the process survives, the routing table's lock is never
+    left held, the only panics are the three recovered reads, and every reply
+    is within the limit of its kind (10000 headers, 1000 sequence entries, the
+    chunk records / stored bodies / peers the node has).  Holds for the
+    shard-peer handler since it answers Count < 0 with an error and cuts Count
+    to the size of the table (finding 7, repaired) *)
+Theorem C33_p2pstore_handlers_total : forall e q,
+  env_ok e -> streq_typed q ->
+  store_survives (store_step e q) = true
+  /\ snd (store_step e q) = false
+  /\ reply_ok e (fst (store_step e q)).
+Proof.
+  intros e q He Hq. destruct (store_step_ok e q He Hq) as [Hr Hl].
+  split; [eapply reply_ok_survives; exact Hr|]. split; assumption.
+Qed.
+Print Assumptions C33_p2pstore_handlers_total.
+
+(** the node of the harness (height 3, records 0..2, twelve stored bodies, six
+    peers) satisfies the hypotheses; served requests; the three witnesses are
+    rejected; what kbucket's NearestPeers does with the counts the handler now
+    keeps away from it: -21 panics with the read lock held, 2^31-1 asks for
+    more than a 16 GiB process gets; the key format of the local store *)
+Theorem C33_p2pstore_example :
+  env_ok env_example
+  /\ sreq_int64 hreq_wrap
+  /\ store_step env_example (QHdrOld hreq_wrap) = (Dropped D_CHAIN, false)
+  /\ store_step env_example (QHdr (RdMsg (mkPR true true (MReqBlocks (- 1099511627776) (two63 - 1))))) = (Done RError, false)
+  /\ store_step env_example (QHdr (RdMsg (mkPR true true (MReqBlocks 2 9)))) = (Done (RHeaders [2; 3]), false)
+  /\ store_step env_example (QHdr (RdMsg (mkPR false false (MReqBlocks 2 9)))) = (Panicked W_NILHDRS, false)
+  /\ store_step env_example (QHdr (RdMsg (mkPR true false (MReqBlocks 2 9)))) = (Dropped D_SIGN, false)
+  /\ store_step env_example (QHdr (RdMsg (mkPR true true MOther))) = (Panicked W_ASSERT, false)
+  /\ store_step env_example (QDirSeq (- 5) 0) = (Done (RSeqs 5 1), false)
+  /\ store_step env_example (QDirSeq (- 65536) (two63 - 1)) = (Done RError, false)
+  /\ store_step env_example (QRec (RdMsg (mkPR true true (MRecords 0 2)))) = (Done (RRecords 3), false)
+  /\ store_step env_example (QRec (RdMsg (mkPR true true (MRecords 0 (two63 - 1))))) = (Done RError, false)
+  /\ store_step env_example (QChunk (RdMsg (mkPR true true (MChunk 10 12)))) = (Done (RBodies 3), false)
+  /\ store_step env_example (QChunk (RdMsg (mkPR true true (MChunk 12 99)))) = (Done RError, false)
+  /\ store_step env_example (QChunk (RdMsg (mkPR true true (MChunk (- two63) (two63 - 1))))) = (Done (RBodies 0), false)
+  /\ store_step env_example (QShard (RdMsg (mkPR false false (MPeers false (- 21))))) = (Done RError, false)
+  /\ store_step env_example (QShard (RdMsg (mkPR false false (MPeers true 2147483647)))) = (Done (RPeers 6), false)
+  /\ store_step env_example (QShard (RdMsg (mkPR false false (MPeers false 3)))) = (Done (RPeers 3), false)
+  /\ nearest_peers 6 429496729 (- 21) = (Panicked W_NEGCAP, true)
+  /\ nearest_peers 6 429496729 (- 1) = (Panicked W_NEGLEN, false)
+  /\ nearest_peers 6 429496729 2147483647 = (Died, false)
+  /\ fmt12 (- 5) = [45; 48; 48; 48; 48; 48; 48; 48; 48; 48; 48; 53]%N
+  /\ fmt12 1000000000000 = [49; 48; 48; 48; 48; 48; 48; 48; 48; 48; 48; 48; 48]%N.
+Proof.
+  split; [exact env_example_ok|]. split; [cbn; unfold int64, two63; lia|].
+  vm_compute. repeat split.
+Qed.
+Print Assumptions C33_p2pstore_example.
